@@ -87,6 +87,14 @@ res["breaks"] = ID
 res["meta_text"] = open(meta).read() if os.path.exists(meta) else ""
 d = "/verif/seeded/%s-%s" % (ID, X)
 os.makedirs(d, exist_ok=True)
+if skip and os.path.exists(os.path.join(d, "meta.json")):
+    old = json.load(open(os.path.join(d, "meta.json")))
+    res["confirmed"] = old.get("confirmed_in_scratch_worktree")
+    for k, v in (old.get("confirmation") or {}).items():
+        res[k] = v
+    merged = dict(old.get("verdicts") or {})
+    merged.update(verdicts)
+    verdicts = merged
 shutil.copy(patch, os.path.join(d, "patch.diff"))
 shutil.copy(demo, os.path.join(d, "demo.rs"))
 json.dump({"breaks_property": ID, "needs_to_manifest": res["meta_text"], "confirmed_in_scratch_worktree": res.get("confirmed"),
